@@ -395,6 +395,9 @@ class Scenario:
         return conn.server
 
     def _do_op(self, op: dict) -> None:
+        if op.get("ticks", 0) > 0:  # tick-level placement: start this operation n event-loop iterations later
+            self.loop.call_soon(self._do_op, dict(op, ticks=op["ticks"] - 1))
+            return
         kind = op["op"]
         w, loop, ctx = self.w, self.loop, self.ctx
         ctx.event("op", kind)
@@ -702,6 +705,14 @@ class Scenario:
                 if open_conns and not self.reopened_since(cl["t1"]):
                     ctx.violate("C11.open-after-close", cl["kind"],
                                 f"{cl['kind']}() returned at t={cl['t1']:.3f} but connection(s) {[c.no for c in open_conns]} are still open")
+        # shutdown() is irreversible: once it has returned the pairing never holds a connection again
+        for cl in self.closes:
+            if cl["kind"] == "shutdown" and cl["t1"] is not None and cl["exc"] is None and open_conns and now >= cl["t1"] and not cl.get("flagged"):
+                held = [c.no for c in open_conns if c.transport is not None or now > c.t_open + TOL]
+                if held:
+                    cl["flagged"] = True
+                    ctx.violate("C11.open-after-close", "after-shutdown-returned",
+                                f"shutdown() returned at t={cl['t1']:.3f} but at t={now:.3f} the pairing holds connection(s) {held}")
         # abandoned connections must be closed by the controller promptly
         for c in open_conns:
             t = self.abandoned.get(c.no)
